@@ -1223,6 +1223,7 @@ pub const BUGS: &[&str] = &[
     "color-profile-icc",
     "palette-shift-a",
     "palette-shift-b",
+    "tilemap-bomb-with-links",
 ];
 
 fn ensure_tilemap(s: &mut SpriteSpec, r: &mut Rng) -> usize {
@@ -2156,7 +2157,7 @@ pub fn apply_bug(s: &mut SpriteSpec, bug: &str, r: &mut Rng, scale: usize) -> St
             }
             format!("palette ids {:?}, pixel in gap: {:?}", have, bad)
         }
-        "bomb-with-links" => {
+        "bomb-with-links" | "tilemap-bomb-with-links" => {
             // one big, highly compressible, truthfully declared cel and many cels linked to it
             let side = (scale.clamp(1, 128) * 64) as u16;
             let nlinks = 48usize;
@@ -2203,7 +2204,7 @@ pub fn apply_bug(s: &mut SpriteSpec, bug: &str, r: &mut Rng, scale: usize) -> St
                 });
             }
             let v = if s.fmt == Fmt::Indexed { *index_domain(s).first().unwrap_or(&0) } else { 0 };
-            let as_tilemap = scale < 64 && r.chance(1, 3);
+            let as_tilemap = bug == "tilemap-bomb-with-links" || (scale < 64 && r.chance(1, 3));
             let li = if as_tilemap {
                 // the big compressible thing is a tile grid on a tilemap layer instead of an image
                 if s.tilesets.is_empty() {
